@@ -18,7 +18,10 @@ KindsFor(d)  == IF AllKinds THEN {k \in OnlyKinds : d.cur <= MaxCur(k)}
 Render(d, kind) == LET h == Hash(d) + Len(kind) IN
   UniformTime(kind, (h \div 2) % 2) @@
   [style |-> (h \div 4) % 2, prefix |-> IF (h \div 8) % 3 = 0 THEN "/mirror/planet" ELSE "",
-   lay |-> (7 * h + Seed) % 384, lists |-> IF Cardinality(d.present) <= 300 THEN 1 ELSE 0]
+   lay |-> (7 * h + Seed) % 384, lists |-> IF Cardinality(d.present) <= 300 THEN 1 ELSE 0,
+   \* the changeset directory's seam: none (all minus one), above the newest (all equal), in the middle, after the oldest
+   seam |-> CASE (h + Seed) % 4 = 0 -> 0 [] (h + Seed) % 4 = 1 -> d.cur + 1
+              [] (h + Seed) % 4 = 2 -> ((d.first + d.cur) \div 2) + 1 [] OTHER -> d.first + 1]
 \* pause family: states two seconds apart, a pause of about ten years (32-bit seconds leave room for two)
 PauseRender(d, kind, pauses) == [Render(d, kind) EXCEPT !.skew = 0, !.unit = 1, !.pauses = pauses, !.pauselen = 300000000]
 
@@ -47,7 +50,7 @@ Repeats(d, r, qs) == LET qa == 2 * d.cur + 1   sq == SetToSeq(qs)
                                 QueryRec(r, qa, 1), QueryRec(r, sq[1], 0)>>
 GenRecWith(d, r, qs) == LET c == CaseOf(d, 0, NoDevs) IN
   [kind |-> r.kind, skew |-> r.skew, style |-> r.style, prefix |-> r.prefix,
-   unit |-> r.unit, pauses |-> SetToSeq(r.pauses), pauselen |-> r.pauselen, lay |-> r.lay, lists |-> r.lists,
+   unit |-> r.unit, pauses |-> SetToSeq(r.pauses), pauselen |-> r.pauselen, lay |-> r.lay, lists |-> r.lists, seam |-> r.seam,
    present |-> SetToSeq(d.present), first |-> d.first, cur |-> d.cur,
    bound |-> c.bound, cap |-> Cap(c),
    current |-> CurrentFile(r, c),
